@@ -1,11 +1,13 @@
+\* Generation: every initial state of ReplDiffMC is printed as one JSON case (quick tier, 'all-3ids').
+\* checks/c19.py writes one such file per configuration (tables MC / GEN there); this is the first quick-tier one.
 SPECIFICATION Spec
 CONSTANTS
   Kinds = {"acl", "config", "fed"}
   Ids = {1, 2, 3}
   Cs = {1, 2}
-  LegacyCs = {1, 2}
+  LegacyCs = {1}
   Mis = {1, 2}
-  Lasts = {0, 1, 2}
+  Lasts = {1}
   MaxLegacyL = 0
   MaxLegacyR = 0
   LoIds = {}
